@@ -26,6 +26,9 @@ def model_by_id(mid, kind="dense"):
         return nets.make_stack(rng, dims=2, param="walsh", max_in=12, n_conv=1, n_dense=1, connections="random")
     if kind == "conv3d":
         return nets.make_stack(rng, dims=3, param="raw", max_in=12, n_conv=1, n_dense=1)
+    if kind == "dense-wide":
+        # more inputs than a 16-bit index can address
+        return nets.make_dense(rng, 40000, [64, 6], k=2, self_pairs=0.0)
     raise ValueError(kind)
 
 
@@ -143,6 +146,13 @@ def job_reload(job):
         m2.eval()
     with torch.no_grad():
         y = m2(x).tolist()
+    other = None
+    if job.get("preload"):
+        # another saved library is loaded (and called) in this process first: the two must not interfere
+        pl = job["preload"]
+        other = CM.CompiledLogicNet.load(pl["lib_path"], tuple(pl["input_shape"]), pl["k"], pl["W"])
+        n_other = int(np.prod(pl["input_shape"]))
+        compiled.forward(other, np.array(probe(n_other, 3), dtype=bool).reshape(3, *pl["input_shape"]).tolist())
     net = CM.CompiledLogicNet.load(job["lib_path"], tuple(job["input_shape"]), job["k"], job["W"])
     yc = compiled.forward(net, np.array(rows, dtype=bool).reshape(len(rows), *job["input_shape"]).tolist())
     say({"eval": y, "compiled": yc})
